@@ -380,6 +380,8 @@ def dask_binding_scenario(ctx, desc, g, ds, cm):
         pb = pbs[desc["dseed"] % len(pbs)]
         nb = ds.sizes[cm[b][pb]]
         da = xr.DataArray(gen.quarter_data(desc["dseed"] + 7, [2, n, nb]), dims=["time", cm[a]["center"], cm[b][pb]])
+        # ... stored in any of the six dimension orders (the broadcast dimension before, between or after the core dims)
+        da = da.transpose(*[da.dims[k] for k in np.random.default_rng(desc["dseed"]).permutation(3)])
         sig = f"(D:center,E:{pb})->(D:{to},E:{pb})"
         axis_arg = [(a, b)]
 
